@@ -19,7 +19,7 @@ MODULE = "IwModel.Props.C12"
 THEOREMS = [
     "IwModel.C12.segments_partition", "IwModel.C12.shared_refines_flat", "IwModel.C12.size_inv",
     "IwModel.C12.read_after_write", "IwModel.C12.read_unaffected_by_write", "IwModel.C12.read_fresh_is_zero",
-    "IwModel.C12.ensure_follows_policy", "IwModel.C12.reopen_size_partial",
+    "IwModel.C12.copy_is_memmove", "IwModel.C12.ensure_follows_policy", "IwModel.C12.reopen_size_partial",
     "IwModel.C12.private_read_after_write_partial", "IwModel.C12.private_remap_loses_write",
     "IwModel.C12.private_remove_loses_write", "IwModel.C12.private_copy_bypasses_window", "IwModel.C12.copy_beyond_grows_disk",
 ]
@@ -598,7 +598,7 @@ def case_odd(r, ctx, nops):
     return Case("odd", g.ops, make_oracle(g.ops))
 
 
-GENS = [(case_shared, 10), (case_private_safe, 4), (case_odd, 2), (case_private_remap, 0.25), (case_copy_beyond, 0.25)]
+GENS = [(case_shared, 10), (case_private_safe, 4), (case_odd, 2), (case_private_remap, 0.5), (case_copy_beyond, 0.6)]
 
 
 def gen_cases(r, ctx, n, nops):
@@ -675,7 +675,7 @@ def run(ctx):
     ok, drv_ok = ctx.prove(MODULE, THEOREMS)
     h = build(ctx)
     drv = C.drv_path() if drv_ok else None
-    n, nops = (260, 60) if ctx.tier == "quick" else (2500, 120)
+    n, nops = (450, 60) if ctx.tier == "quick" else (3000, 120)
     explore(ctx, h, drv, n, nops, "main")
     if ctx.proof_broken or ctx.corr_broken:
         ctx.log("obligation or correspondence broken: widening the search for a failing input")
